@@ -5,7 +5,7 @@ C06 — what the property demands, stated independently of the pandas steps of t
                   omitted keys (`StartTime` 0, `KeySounds` [], `Bpm` 120, `Multiplier` 1.0 — the defaults reamberPy's
                   reader documents; the Quaver reference cannot be consulted offline: recorded assumption).
 * `quantize`    : the chart a written document can denote: times are whole milliseconds (truncated toward 0),
-                  a tempo point carries no metronome (default 4).
+                  a tempo point carries no metronome (default 4), a NaN key-sound cell (not a list) reads back as [].
 * `docAllowed`  : only the keys and value types the format defines.
 * `DocDom` / `ChartDom` flags: the hypotheses of the theorems of `Props/C06.lean`, as Bool functions the
   harness evaluates through the driver.
@@ -93,9 +93,10 @@ def denote (d : Doc) : Except Err Chart := do
 
 /-! ### what a written document can carry -/
 
-def qHit (h : Hit) : Hit := { h with offset := (truncI h.offset : Rat) }
+def qHit (h : Hit) : Hit := { h with offset := (truncI h.offset : Rat), keysounds := ksFill h.keysounds }
 def qHold (h : Hold) : Hold :=
-  { h with offset := (truncI h.offset : Rat), length := (truncI (h.offset + h.length) : Rat) - (truncI h.offset : Rat) }
+  { h with offset := (truncI h.offset : Rat), length := (truncI (h.offset + h.length) : Rat) - (truncI h.offset : Rat),
+           keysounds := ksFill h.keysounds }
 def qBpm (b : Bpm) : Bpm := { b with offset := (truncI b.offset : Rat), metronome := 4 }
 def qSv (s : Sv) : Sv := { s with offset := (truncI s.offset : Rat) }
 
@@ -185,7 +186,7 @@ def offending (d : Doc) : List (String × String) :=
 
 /-! ### hypotheses of the theorems, as Bool functions -/
 
-/-- every hit object declares its `KeySounds` (hypothesis forced by open finding D21) -/
+/-- every hit object declares its `KeySounds` (no longer a hypothesis since the repair of D21; kept as a tag) -/
 def keySoundsDeclared (d : Doc) : Bool :=
   (d.hitObjects.getD []).all (fun r => match r.get "KeySounds" with | some (.ks _) => true | _ => false)
 
@@ -200,15 +201,15 @@ def numLike : Option YV → Bool
   | _ => false
 
 /-- a hit object as the property quantifies over them: `StartTime` / `EndTime` numeric when present, `Lane` an
-integer, `KeySounds` declared (the last conjunct is the hypothesis forced by open finding D21) -/
+integer, `KeySounds` omitted or a list of key sounds -/
 def objOk (r : Rec) : Bool :=
   numLike (r.get "StartTime") && numLike (r.get "EndTime") &&
   (match r.get "Lane" with | some (.int _) => true | _ => false) &&
-  (match r.get "KeySounds" with | some (.ks _) => true | _ => false)
+  (match r.get "KeySounds" with | none => true | some (.ks _) => true | _ => false)
 
 def objsDeclared (d : Doc) : Bool := (d.hitObjects.getD []).all objOk
 
-/-- no `keysounds` cell of the chart is NaN (hypothesis forced by open finding D08) -/
+/-- no `keysounds` cell of the chart is NaN (the code no longer produces such cells since the repair of D08/D21) -/
 def ksLists (c : Chart) : Bool :=
   c.hits.all (fun h => h.keysounds != .nan) && c.holds.all (fun h => h.keysounds != .nan)
 
